@@ -25,11 +25,12 @@ ASSUMPTIONS = ["the reference is the same code run history-free (the property is
 
 def plan(tier, seed):
     k = 12 if tier == "quick" else 64
-    return [{"kind": "hist", "sub": i, "n": 120 if tier == "quick" else 1500} for i in range(k)]
+    return [{"kind": "hist", "sub": i, "n": 120 if tier == "quick" else 1500} for i in range(k)] + \
+           [{"kind": "hashseed", "sub": i, "n": 150 if tier == "quick" else 1500} for i in range(2 if tier == "quick" else 8)]
 
 
 def floors(tier):
-    return {"evaluations": 400, "strata": ["recompute", "stale-nodes", "permutation", "option-change", "second-label-set", "subset-of-earlier-set"],
+    return {"evaluations": 400, "strata": ["recompute", "stale-nodes", "permutation", "option-change", "second-label-set", "subset-of-earlier-set", "hash-seed"],
             "events": {"Force.compute": 1500}, "distinct_nontrivial": 200}
 
 
@@ -180,7 +181,46 @@ def run_history(ctx, mon, h):
                 ctx.stratum(x, generated=1, judged=1, held=1)
 
 
+HASHSEEDS = ["0", "1", "7", "424242"]
+
+
+def hashseed_shard(ctx, shard):
+    """The same seeded batch of layouts computed in fresh processes that differ only in PYTHONHASHSEED
+    (set/dict iteration order of str- and id-keyed collections): the results must be identical line by line."""
+    import subprocess
+
+    from vmon.core import PY, VERIF, jdumps, worker_env
+
+    spec = {"seed": "%s:%s" % (ctx.seed, shard["sub"]), "n": shard["n"]}
+    logs = {}
+    for hs in HASHSEEDS:
+        env = worker_env({"PYTHONHASHSEED": hs})
+        env["PYTHONHASHSEED"] = hs
+        p = subprocess.run([PY, "-m", "props.c06_batch", jdumps(spec)], cwd=VERIF, env=env, capture_output=True, text=True, timeout=1800)
+        lines = p.stdout.splitlines()
+        if p.returncode != 0 or not lines or lines[-1] != "END":
+            ctx.judge("hash-seed", INCONCLUSIVE, {"spec": spec, "hashseed": hs}, reason="batch process failed: %s" % p.stderr[-300:])
+            return
+        logs[hs] = lines
+    if len(set(logs[hs][0] for hs in HASHSEEDS)) < 2:
+        ctx.judge("hash-seed", INCONCLUSIVE, {"spec": spec}, reason="hash seeds not in effect (sentinel lines equal)")
+        return
+    ref = logs[HASHSEEDS[0]][1:-1]
+    for i, line in enumerate(ref):
+        diff = {hs: logs[hs][1 + i][:200] for hs in HASHSEEDS[1:] if logs[hs][1 + i] != line}
+        if line.split("|", 2)[2].startswith("EXC "):
+            ctx.judge("hash-seed", INCONCLUSIVE, None, reason="layout raised in every process")
+        elif diff:
+            ctx.judge("hash-seed", VIOLATED, {"spec": spec, "case_index": i}, finding={"PYTHONHASHSEED=0": line[:200], "others": diff}, key="hash-seed-dependent")
+        else:
+            ctx.judge("hash-seed", HELD, None, nontrivial=True, dig=line[:160])
+    ctx.event("hashseed_processes", len(HASHSEEDS))
+
+
 def worker(ctx, shard):
+    if shard["kind"] == "hashseed":
+        hashseed_shard(ctx, shard)
+        return
     from vmon.mon_layout import LayoutMonitor
 
     mon = LayoutMonitor().install()
